@@ -207,7 +207,7 @@ func runC17(e *Env) error {
 				Broken: "theorem C17_propagates (loader causes; implementation-only oracle)", Replay: map[string]any{"kind": "flaky-loader", "err": fmt.Sprint(res.Err)}})
 		}
 	}
-	relativeFailureOracle(e, "relative-parent-failure-replaced", "theorem C17_propagates (relative names are outside the model; implementation-only oracle with a custom loader)")
+	relativeFailureOracle(e, "relative-parent-failure-replaced", "theorem C17_propagates (relative names: model `resolveTpl`, theorems C11_relative_*; implementation-only oracle with a custom loader)")
 	// recorded finding: `<failing expression>.attr is defined` swallows the failure
 	{
 		c := &Case{Templates: map[string]string{"main": "{% import 'lib' as lib %}{{ lib.spyfn().y is defined }}", "lib": "{% macro ok() %}ok{% endmacro %}"},
